@@ -1065,6 +1065,38 @@ def cache_shared_path_stream(ctx):
     variants = [dict(import_paths=[dirs[0]]), dict(import_paths=[dirs[1]]), dict(import_paths=[dirs[2], dirs[0]]),
                 dict(import_paths=[dirs[0]], keep_all_tokens=True), dict(import_paths=[dirs[0]], maybe_placeholders=False),
                 dict(import_paths=[dirs[1]], propagate_positions=True), dict(import_paths=[dirs[0], dirs[2]])]
+    # imports through a user package loader: editing the package's grammar between constructions must invalidate the cache
+    import sys as _sys
+    from lark.load_grammar import FromPackageLoader
+    pkgname = 'lv_c11pkg_%d' % rng.randint(0, 10 ** 9)
+    pkgdir = os.path.join(base, pkgname)
+    os.makedirs(os.path.join(pkgdir, 'grammars'), exist_ok=True)
+    open(os.path.join(pkgdir, '__init__.py'), 'w').write('')
+    libp = os.path.join(pkgdir, 'grammars', 'lib.lark')
+    _sys.path.insert(0, base)
+    try:
+        ppath = os.path.join(base, 'pkg.cache')
+        loader = FromPackageLoader(pkgname, ('grammars',))
+        for step, body in enumerate([bodies[0], bodies[0], bodies[1], bodies[1], bodies[2], bodies[0]]):
+            open(libp, 'w').write(body)
+            try:
+                direct = jsonable(observe(Lark(g, parser='lalr', import_paths=[loader]), probes))
+                cached = jsonable(observe(Lark(g, parser='lalr', cache=ppath, import_paths=[loader]), probes))
+            except Exception as e:  # noqa
+                ctx.violation('differential:cache-shared-path', {'grammar': g, 'variant': 'cache-shared-path', 'package_import_step': step,
+                                                                 'exception': traceback.format_exc()[-600:]}, True,
+                              'construction with a package-loader import raised %s' % type(e).__name__)
+                break
+            ctx.count('cache-shared-path', key=('pkg', step), nontrivial=step > 0)
+            if direct != cached:
+                ctx.violation('differential:cache-shared-path',
+                              {'grammar': g, 'variant': 'cache-shared-path', 'libs': bodies, 'package_import_step': step}, True,
+                              'after editing a grammar imported through FromPackageLoader (step %d) the cache-served parser '
+                              'differs from the direct build' % step)
+                break
+    finally:
+        _sys.path.remove(base)
+        _sys.modules.pop(pkgname, None)
     for rnd in range(ctx.scale(3, 12)):
         seq = [rng.choice(variants) for _ in range(rng.randint(3, 6))]
         if os.path.exists(path):
